@@ -75,7 +75,7 @@ def run(tier, seed, replay=None):
     drv = Driver()
     exp = {}
     cases = [replay["case"]] if replay else \
-        [rc.make_case(run.rng, tier, damage=(i % 5 != 0)) for i in range(90 if tier == "quick" else 900)]
+        [rc.make_case(run.rng, tier, damage=(i % 5 != 0)) for i in range(200 if tier == "quick" else 1500)]
     for case in cases:
         res = run_case(run, drv, case, exp)
         if res is None:
